@@ -36,7 +36,7 @@ def check(ctx):
     require_tlc_ok(live, "RunT.tla termination")
     bugs = []
     if not quick or ctx.selftest:
-        for b in ["DecBeforeRemove", "DeferFIFO", "NoBgCleanupOnFail"]:
+        for b in ["DecBeforeRemove", "DeferFIFO", "NoBgCleanupOnFail", "DeferStopsOnFail"]:
             r = tlc(ctx, "runt", "MC_RunT.tla", "Bug_%s.cfg" % b, cfg_text=cfg_text(b, True, False), workers=4, timeout=600, expect_violation=True)
             if r.ok:
                 raise NoVerdict("sanity: TLC did not reject Bug=%s" % b)
@@ -108,7 +108,7 @@ REGISTRY = dict(
     category="model_checking", design_ref="DESIGN.md section 3 C04",
     text="RunT.tla models the life cycle of parallel scripts (lines between gates, deferred functions, background processes, removal of "
          "the work directory, reference count, removal of the shared root); TLC checks LIFO deferral, nothing-left-behind, root-removed-last "
-         "and termination over all interleavings (bug switches DecBeforeRemove, DeferFIFO, NoBgCleanupOnFail are rejected). Every transition "
+         "and termination over all interleavings (bug switches DecBeforeRemove, DeferFIFO, NoBgCleanupOnFail, DeferStopsOnFail are rejected). Every transition "
          "is replayed as a schedule into the real RunT (testscript.go built with os/atomic redirected so that removals and the reference "
          "count are scheduling points), plus bounded DFS, PCT and free -race batches. Every batch record - per-script observations compared "
          "with the solo run, verdicts, deferred order, leftovers, live pids, host state, canary - is validated by TLC against the contract.",
